@@ -389,7 +389,7 @@ func (x *exec) round(rep *sim.Replica, f *fault, randStep uint64) (rr roundResul
 	rr.Refs0 = refsDigest(rep)
 	ctx, cancel := context.WithCancel(context.Background())
 	defer cancel()
-	x.srv.resetRound(f, cancel)
+	x.srv.resetRound(f)
 	fired0 := 0
 	for _, n := range x.srv.Fired {
 		fired0 += n
